@@ -681,6 +681,29 @@ def run(tier, seed, replay):
                     attempt("expm-bad-shape", lambda: _data.expm(XA), [fa], None, None, data=data)
                     attempt("pow-bad-shape", lambda: _data.pow(XA, 2), [fa], None, None, data=data)
                 attempt("reshape-bad-shape", lambda: _data.reshape(XA, r + 1, c), [fa], None, None, data=data)
+    # ------------------------------------------------------------------ predicates and powers on rectangular operands in every storage form:
+    # diagonal / one off-diagonal entry / zero matrices; integer powers exist for square operands only, whatever the exponent
+    for shp in ((2, 5), (5, 2), (4, 3), (3, 4), (1, 4), (4, 1), (3, 3)):
+        r_, c_ = shp
+        mats = {"diagonal": np.zeros(shp, complex), "zero": np.zeros(shp, complex)}
+        for k_ in range(min(shp)):
+            mats["diagonal"][k_, k_] = complex(k_ + 1, -k_)
+        for _ in range(3):
+            M_ = mats["diagonal"].copy()
+            i_, j_ = int(rng.integers(0, r_)), int(rng.integers(0, c_))
+            if i_ != j_:
+                M_[i_, j_] = 2 - 1j
+                mats[f"off-diagonal entry at {i_},{j_}"] = M_
+        for nm_, M_ in mats.items():
+            for fa in FORMS:
+                X_ = build(M_, fa, rng)
+                isd = not (M_ * (1 - np.eye(r_, c_))).any()
+                attempt("isdiag-rect", lambda: bool(_data.isdiag(X_)), [fa], None, isd, data={"shape": list(shp), "matrix": nm_})
+                attempt("iszero-rect", lambda: bool(_data.iszero(X_)), [fa], None, not M_.any(), data={"shape": list(shp), "matrix": nm_})
+                for n_ in (0, 1, 2):
+                    for od in (None, "CSR", "Dia", "Dense"):
+                        kw_ = {} if od is None else {"dtype": od}
+                        attempt("pow-rect", lambda: _data.pow(X_, n_, **kw_), [fa], od, (np.linalg.matrix_power(M_, n_) if r_ == c_ else None), data={"shape": list(shp), "n": n_})
     # ------------------------------------------------------------------ reshape to every factorisation of the size, from every storage form
     for shp in ((3, 4), (4, 3), (6, 2), (7, 3), (5, 4), (2, 6), (1, 12)):
         Ar = pattern(rng, shp, str(rng.choice(["full", "random", "diagonals"])))
